@@ -14,6 +14,7 @@ const (
 	CutAfter     = "cutAfter"     // packet processed, response suppressed, EOF
 	CutAfterResp = "cutAfterResp" // processed, response queued, then EOF
 	DropResp     = "dropResp"     // processed, response silently dropped, link stays up
+	DropReq      = "dropReq"      // swallowed: neither processed nor answered, link stays up (a stalled link)
 	Refuse       = "refuse"       // CONNECT only: CONNACK with a refusal code, then close
 	NoConnack    = "noConnack"    // CONNECT only: no answer, link stays up
 )
@@ -165,6 +166,10 @@ func (b *Broker) OnPacket(c *memnet.Conn, raw []byte, p *mqttref.Packet, perr er
 	case CutBeforeOK:
 		c.PeerCloseLocked("fault " + kind)
 		return false
+	case DropReq:
+		if p.Type != mqttref.CONNECT {
+			return false
+		}
 	}
 	resp, closeAfter := b.process(c, bc, p, kind)
 	switch kind {
